@@ -987,7 +987,8 @@ pub fn worker(cfg: &WorkerCfg, emit: &mut dyn FnMut(Violation)) -> Stats {
             }
             stats.count("profile_prefix_checks", 1);
         }
-        let od = fnv(format!("{:?}|{:?}", out.result, out.file.as_ref().map(|f| fnv(f))).as_bytes());
+        // (an error text may name the output, whose path differs from worker to worker)
+        let od = fnv(format!("{:?}|{:?}", out.result, out.file.as_ref().map(|f| fnv(f))).replace(&scratch.root_str(), "$R").as_bytes());
         stats.outcome_digests.insert(g, od);
         stats.digests.insert(g, trace_digest(&out.state.trace) ^ od);
         // probes
